@@ -1,4 +1,449 @@
 import Tfv.Model
+import Tfv.Spec.Matches
+import Tfv.Proofs.QuerySolve
+import Tfv.Proofs.QueryCorollaries
+import Tfv.Proofs.QueryTotal
+import Tfv.Props.C01
+import Tfv.Props.C20
+/-!
+# C11 — the query generated from a task matches exactly the workflows that contain the described flow
+Statements only; the proofs are in `Tfv/Proofs/Query*.lean`, the specification in `Tfv/Spec/Matches.lean`.
+-/
 namespace Tfv.C11
-theorem placeholder : True := trivial
+open Tfv
+
+/-! ## Part A — `solve`/`evalQuery` is a basic-graph-pattern semantics -/
+
+/-- Every environment that `solve` returns (started from the empty environment) satisfies every clause. -/
+theorem C11_solve_sound (g : List Triple) (wf : Node) (univ : List Node) (cs : List QClause) (e : QEnv)
+    (h : e ∈ solve g wf univ cs [[]]) : SatAll g wf e cs :=
+  solve_sound_nil h
+
+/-- If an assignment `ρ` satisfies every clause, and gives the variables in subject position of a `p?`
+triple values in `univ`, then `solve` returns an environment, and that environment is part of `ρ`. -/
+theorem C11_solve_complete (g : List Triple) (wf : Node) (univ : List Node) (cs : List QClause) (ρ : QEnv)
+    (hs : SatAll g wf ρ cs) (hu : OptSubjectsIn univ wf ρ cs) :
+    ∃ e ∈ solve g wf univ cs [[]], EnvLe e ρ :=
+  solve_complete g wf univ ρ cs [[]] ⟨[], by simp, envLe_nil ρ⟩ hs hu
+
+/-- `pathPairs` enumerates exactly the pairs that satisfy the path and agree with the known ends
+(for `p?` between two unknown ends, the reflexive pairs range over `univ`). -/
+theorem C11_pathPairs (g : List Triple) (univ : List Node) (p : QPath) (sa ob : Option Node) (a b : Node)
+    (hu : ∀ n, p = .opt n → sa = none → ob = none → a = b → a ∈ univ) :
+    (a, b) ∈ pathPairs g univ p sa ob ↔ (pathHolds g p a b = true ∧ endOk sa a ∧ endOk ob b) :=
+  ⟨pathPairs_sound g univ p sa ob a b, fun h => pathPairs_complete g univ p sa ob a b h.1 h.2.1 h.2.2 hu⟩
+
+/-- `extendTriple` returns only extensions of the environment that satisfy the triple … -/
+theorem C11_extend_sound (g : List Triple) (wf : Node) (univ : List Node) (env e' : QEnv) (t : QTriple)
+    (h : e' ∈ extendTriple g wf univ env t) : EnvLe env e' ∧ SatTriple g wf e' t :=
+  extendTriple_sound h
+
+/-- … and below every satisfying assignment that extends the environment there is a returned extension
+(the returned extensions are the minimal ones). -/
+theorem C11_extend_complete (g : List Triple) (wf : Node) (univ : List Node) (env ρ : QEnv) (t : QTriple)
+    (hle : EnvLe env ρ) (hsat : SatTriple g wf ρ t)
+    (hu : ∀ n v a, t.p = .opt n → t.s = .var v → termVal wf ρ (.var v) = some a → a ∈ univ) :
+    ∃ e' ∈ extendTriple g wf univ env t, EnvLe e' ρ :=
+  extendTriple_complete hle hsat hu
+
+/-- A query is accepted only if pre-filter and body are satisfiable (no hypothesis). -/
+theorem C11_eval_sound (q : Query) (g : List Triple) (wf : Node) (h : evalQuery q g wf = true) :
+    Satisfiable g wf q.prefilter ∧ Satisfiable g wf q.body :=
+  eval_sound h
+
+/-- A query whose pre-filter and body are satisfiable by assignments that take graph nodes at the
+subjects of `p?` triples is accepted (no hypothesis on the query). -/
+theorem C11_eval_complete (q : Query) (g : List Triple) (wf : Node)
+    (h1 : SatisfiableIn (graphNodes g) g wf q.prefilter) (h2 : SatisfiableIn (graphNodes g) g wf q.body) :
+    evalQuery q g wf = true :=
+  eval_complete h1 h2
+
+/-- Exact characterisation, when `p?` is only used between variables (true of every generated query):
+the query is accepted iff pre-filter and body are satisfiable over the nodes of the graph. -/
+theorem C11_eval_iff (q : Query) (g : List Triple) (wf : Node)
+    (h1 : OptVars q.prefilter) (h2 : OptVars q.body) :
+    evalQuery q g wf = true ↔
+      SatisfiableIn (graphNodes g) g wf q.prefilter ∧ SatisfiableIn (graphNodes g) g wf q.body :=
+  eval_iff_in q g wf h1 h2
+
+/-- With unrestricted assignments the equivalence needs the query to be grounded: every variable at
+the subject of a `p?` triple also occurs in a stand-alone triple with another path. -/
+theorem C11_eval_iff_partial (q : Query) (g : List Triple) (wf : Node)
+    (h1 : Grounded q.prefilter) (h2 : Grounded q.body) :
+    evalQuery q g wf = true ↔ Satisfiable g wf q.prefilter ∧ Satisfiable g wf q.body :=
+  eval_iff_grounded q g wf h1 h2
+
+/-- Counterexample to the unrestricted equivalence: `?x :depends? ?y` over the empty graph is satisfied by
+`x = y = anything`, but a zero-length path between unbound variables ranges over the nodes of the graph. -/
+theorem C11_eval_iff_counterexample :
+    let q : Query := { body := [.one ⟨.var [0], .opt "depends", .var [1]⟩] }
+    evalQuery q [] (.res "w") = false ∧ Satisfiable [] (.res "w") q.prefilter ∧ Satisfiable [] (.res "w") q.body := by
+  refine ⟨by decide, ⟨[], fun c hc => by cases hc⟩, ⟨[([0], .res "w"), ([1], .res "w")], ?_⟩⟩
+  intro c hc
+  simp only [List.mem_singleton] at hc
+  subst hc
+  exact ⟨.res "w", .res "w", rfl, rfl, by decide⟩
+
+/-! ### non-vacuity for Part A: a small graph and a clause list with a `p?` clause -/
+
+def b (n : Nat) : Node := .b n
+def w : Node := .res "wf"
+
+/-- a workflow `w` with three concept nodes: `b 0` (output, via `f`) depends on `b 1` (via `g`), which depends on the input `b 2` -/
+def exGraph : List Triple := [
+  (w, .tf "output", b 0), (b 0, .tf "via", .ns "f"), (b 0, .tf "subtypeOf", .ns "A"), (b 0, .tf "depends", b 1),
+  (b 1, .tf "via", .ns "g"), (b 1, .tf "subtypeOf", .ns "B"), (b 1, .tf "subtypeOf", .ns "A"), (b 1, .tf "depends", b 2),
+  (b 0, .tf "depends", b 2), (b 2, .tf "subtypeOf", .ns "A"), (w, .tf "input", b 2),
+  (w, .tf "containsOperation", .ns "f"), (w, .tf "containsOperation", .ns "g"),
+  (w, .tf "containsType", .ns "A"), (w, .tf "containsType", .ns "B")]
+
+def exClauses : List QClause :=
+  [.one ⟨.workflow, .outputFrom, .var [0]⟩, .one ⟨.var [0], .opt "depends", .var [1]⟩,
+   .union [⟨.var [1], .pred "via", .node (.ns "g")⟩, ⟨.var [1], .pred "via", .node (.ns "h")⟩]]
+
+example : solve exGraph w (graphNodes exGraph) exClauses [[]] =
+    [[([0], b 0), ([1], b 1)]] := by decide +kernel
+
+example : SatAll exGraph w [([0], b 0), ([1], b 1)] exClauses :=
+  C11_solve_sound _ _ (graphNodes exGraph) _ _ (by decide +kernel)
+
+example : OptVars exClauses ∧ ¬ Grounded [QClause.one ⟨.var [0], .opt "depends", .var [1]⟩] := by
+  refine ⟨?_, ?_⟩
+  · intro c hc t ht n hp
+    simp only [exClauses, List.mem_cons, List.not_mem_nil, or_false] at hc
+    rcases hc with rfl | rfl | rfl <;> simp [QClause.triples] at ht <;> (try rcases ht with rfl | rfl) <;> simp_all
+  · intro h
+    obtain ⟨t', ht', hne, _⟩ := h (.one ⟨.var [0], .opt "depends", .var [1]⟩) (by simp)
+      ⟨.var [0], .opt "depends", .var [1]⟩ (by simp [QClause.triples]) "depends" [0] rfl rfl
+    simp only [List.mem_singleton, QClause.one.injEq] at ht'
+    subst ht'
+    exact hne "depends" rfl
+
+/-! ## the predicates of a generated query -/
+
+/-- Every predicate name that a generated query tests (whatever the flags) is one of the eight queried
+predicates, and each of those is a predicate that the graph generator emits. -/
+theorem C11_predicates (G : GLang) (t : QTask) (f : QFlags) (q : Query) (h : genQuery G t f = .ok q) :
+    ∀ n ∈ q.preds, n ∈ Generated.queriedPredicates ∧ n ∈ Generated.emittedPredicates :=
+  genQuery_preds h
+
+/-- Every triple of a generated query has one of ten shapes (`GenTriple`), for the variable assignment `a`
+computed by `assignAll`; the `:depends`/`:depends?` triples are between the two ends of a recorded link. -/
+theorem C11_shapes (G : GLang) (t : QTask) (f : QFlags) (q : Query) (h : genQuery G t f = .ok q) :
+    ∃ a, assignAll t f = .ok a ∧ ∀ c ∈ q.prefilter ++ q.body, ∀ tr ∈ c.triples, GenTriple f a tr := by
+  obtain ⟨a, ha, hq⟩ := genQuery_ok h
+  exact ⟨a, ha, genFrom_shape hq⟩
+
+/-- Generated queries use `p?` between variables only, so `C11_eval_iff` applies to them. -/
+theorem C11_generated_optVars (G : GLang) (t : QTask) (f : QFlags) (q : Query) (h : genQuery G t f = .ok q) :
+    OptVars q.prefilter ∧ OptVars q.body :=
+  genQuery_optVars h
+
+/-- For a generated query (not unfolded) the unrestricted equivalence does hold: every variable, also one that
+only occurs in `:depends?` clauses, is linked through its successors to an output variable, so a satisfying
+assignment can only take nodes of the graph there. -/
+theorem C11_generated_eval_iff (G : GLang) (t : QTask) (f : QFlags) (q : Query)
+    (hf : f.unfoldTree = false) (hq : genQuery G t f = .ok q) (g : List Triple) (wf : Node) :
+    evalQuery q g wf = true ↔ Satisfiable g wf q.prefilter ∧ Satisfiable g wf q.body :=
+  generated_eval_iff hf hq g wf
+
+/-! ## Part B — the generated query means `Matches` -/
+
+/-- What `assign_variables` computes for a task that is not unfolded (if it succeeds: no cycle on a path):
+one variable `[k]` per step `k` reachable from an output, each once; a link `([c],[b])` for exactly the
+pairs with `c` reachable and `b` a predecessor of `c`; the outputs; the reachable inputs. -/
+theorem C11_assign_reachable (t : QTask) (f : QFlags) (hf : f.unfoldTree = false) (a : QAssign)
+    (h : assignAll t f = .ok a) : AssignOk t a :=
+  assignAll_ok t f hf a h
+
+/-- `genQuery` is `assignAll` followed by the clause generation `genFrom`. -/
+theorem C11_genQuery_eq (G : GLang) (t : QTask) (f : QFlags) :
+    genQuery G t f = (match assignAll t f with
+      | .error e => .error e
+      | .ok a => genFrom G t f a) :=
+  genQuery_eq G t f
+
+/-- The declared subtype order, decided by `leTyB`, is a partial order on well-formed types (C01), and on
+every smaller domain. -/
+theorem C11_porder (L : Lang) (wfL : WF L) (P : Ty → Prop) :
+    C20.POrder (leTyB L) (fun T => wfTy L T = true ∧ P T) :=
+  ⟨fun x hx => (C01.C01_decides L wfL x x hx.1 hx.1).2 (C01.C01_refl L wfL x hx.1),
+   fun x y z hx hy hz h1 h2 => (C01.C01_decides L wfL x z hx.1 hz.1).2
+     (C01.C01_trans L wfL x y z hx.1 hy.1 hz.1 ((C01.C01_decides L wfL x y hx.1 hy.1).1 h1)
+       ((C01.C01_decides L wfL y z hy.1 hz.1).1 h2)),
+   fun x y hx hy h1 h2 => C01.C01_antisymm L wfL x y hx.1 hy.1
+     ((C01.C01_decides L wfL x y hx.1 hy.1).1 h1) ((C01.C01_decides L wfL y x hy.1 hx.1).1 h2)⟩
+
+/-- **C11.** For a task whose query can be generated (no cycle on a path from an output, the used types have
+URIs) and not unfolded: the query accepts workflow `wf` of graph `g` iff the
+task matches it (`Matches`, see `Tfv/Spec/Matches.lean`). The pre-filter on types is a reduced bag; it
+means "every step's type requirement is met" when `leTyB` is a partial order on a domain `D` of the task's
+types and the `containsType` set of the workflow is closed under supertypes within `D` (C20). -/
+theorem C11_query (G : GLang) (t : QTask) (f : QFlags) (q : Query)
+    (hf : f.unfoldTree = false) (hq : genQuery G t f = .ok q)
+    (g : List Triple) (wf : Node) (D : Ty → Prop) (po : C20.POrder (leTyB G.types) D)
+    (hD : ∀ k, StepReach t k → ∀ T ∈ (t.step k).types, D T)
+    (hup : C20.UpClosed (leTyB G.types) D (HasType G g wf)) :
+    evalQuery q g wf = true ↔ Matches G t f g wf := by
+  refine query_iff hf hq g wf (fun _ reqs hreqs => ?_)
+  refine satBag_bagOf (leTyB G.types) D po.refl po.trans po.antisymm (HasType G g wf) hup reqs ?_
+  intro r hr x hx
+  obtain ⟨k, hk, rfl⟩ := hreqs r hr
+  exact hD k hk x hx
+
+/-- `assign_variables` succeeds exactly when no step reachable from an output lies on a cycle of `from_` links
+(the fuel `steps.length + 2` of the model always suffices). -/
+theorem C11_assign_iff (t : QTask) (f : QFlags) (hf : f.unfoldTree = false) :
+    (∃ a, assignAll t f = .ok a) ↔ NoCycle t :=
+  assignAll_ok_iff t f hf
+
+/-- A query is generated for every task without a reachable cycle whose (reachable) types all have URIs … -/
+theorem C11_generates (G : GLang) (t : QTask) (f : QFlags) (hf : f.unfoldTree = false) (hnc : NoCycle t)
+    (hU : ∀ k, StepReach t k → ∀ T ∈ (t.step k).types, HasUri G T) : ∃ q, genQuery G t f = .ok q :=
+  genQuery_total hf hnc hU
+
+/-- … and only for tasks without a reachable cycle. -/
+theorem C11_generates_only (G : GLang) (t : QTask) (f : QFlags) (q : Query) (hf : f.unfoldTree = false)
+    (h : genQuery G t f = .ok q) : NoCycle t :=
+  genQuery_ok_nocycle hf h
+
+/-- **C11**, in one statement: an acyclic task with URIs has a query, and that query accepts exactly the
+workflows that the task matches. -/
+theorem C11_query_acyclic (G : GLang) (t : QTask) (f : QFlags) (hf : f.unfoldTree = false) (hnc : NoCycle t)
+    (D : Ty → Prop) (po : C20.POrder (leTyB G.types) D)
+    (hD : ∀ k, StepReach t k → ∀ T ∈ (t.step k).types, D T ∧ HasUri G T) :
+    ∃ q, genQuery G t f = .ok q ∧ ∀ (g : List Triple) (wf : Node),
+      C20.UpClosed (leTyB G.types) D (HasType G g wf) → (evalQuery q g wf = true ↔ Matches G t f g wf) := by
+  obtain ⟨q, hq⟩ := C11_generates G t f hf hnc (fun k hk T hT => (hD k hk T hT).2)
+  exact ⟨q, hq, fun g wf hup => C11_query G t f q hf hq g wf D po (fun k hk T hT => (hD k hk T hT).1) hup⟩
+
+/-- Without the pre-filter on types no order hypothesis is needed. -/
+theorem C11_query_noTypes (G : GLang) (t : QTask) (f : QFlags) (q : Query)
+    (hf : f.unfoldTree = false) (hty : f.byTypes = false)
+    (hq : genQuery G t f = .ok q) (g : List Triple) (wf : Node) :
+    evalQuery q g wf = true ↔ Matches G t f g wf :=
+  query_iff hf hq g wf (fun h => by rw [hty] at h; cases h)
+
+/-! ## Part C — consequences -/
+
+/-- A task that asks for a part of another task (fewer outputs, inputs or links, the same constraints on the
+steps it keeps) matches whatever the other task matches, with the same assignment. -/
+theorem C11_subtask (G : GLang) (t' t : QTask) (f : QFlags) (g : List Triple) (wf : Node)
+    (h : SubTask t' t) (hm : Matches G t f g wf) : Matches G t' f g wf := by
+  obtain ⟨hh, hm⟩ := hm
+  exact ⟨hh, h.matchesBy hm⟩
+
+/-- Dropping a step never loses a match: removing the link `c → j` (so that step `j`, and whatever is only
+reachable through it, is no longer asked for) preserves `Matches`. -/
+theorem C11_drop_step (G : GLang) (t : QTask) (f : QFlags) (g : List Triple) (wf : Node) (c j : Nat)
+    (hm : Matches G t f g wf) : Matches G (t.dropLink c j) f g wf :=
+  C11_subtask G _ t f g wf (dropLink_subTask t c j) hm
+
+/-- Generalising types never loses a match: if every type alternative of every step is replaced by
+supertypes, the task still matches, provided the `subtypeOf` sets of the nodes and the `containsType` set of the
+workflow are closed under supertypes within the domain `D` of the types involved (C07 for generated graphs). -/
+theorem C11_generalise (G : GLang) (t t' : QTask) (f : QFlags) (g : List Triple) (wf : Node)
+    (D : Ty → Prop) (po : C20.POrder (leTyB G.types) D)
+    (h : GeneralisedTask (leTyB G.types) t t')
+    (hD : ∀ k, ∀ T ∈ (t.step k).types, D T) (hD' : ∀ k, ∀ T ∈ (t'.step k).types, D T)
+    (hup : UpClosedSubtypeOf G D g) (hupc : C20.UpClosed (leTyB G.types) D (HasType G g wf))
+    (hm : Matches G t f g wf) : Matches G t' f g wf := by
+  obtain ⟨hh, hm⟩ := hm
+  exact ⟨hh, h.matchesBy G D po.refl po.trans po.antisymm hD hD' hup hupc hm⟩
+
+/-- Requiring an absent operator never matches: a reachable step that requires exactly `o`, while the workflow
+does not contain `o` (pre-filter on) or no node is computed via `o` (chronology on). -/
+theorem C11_absent_operator (G : GLang) (t : QTask) (f : QFlags) (g : List Triple) (wf : Node) (k : Nat) (o : String)
+    (hk : StepReach t k) (hops : (t.step k).ops = [o])
+    (habs : (f.byOperators = true ∧ (wf, Node.tf "containsOperation", Node.ns o) ∉ g) ∨
+            (f.byChronology = true ∧ ∀ n, (n, Node.tf "via", Node.ns o) ∉ g)) :
+    ¬ Matches G t f g wf :=
+  not_matches_absent_operator hk hops habs
+
+/-- Requiring an absent type never matches. -/
+theorem C11_absent_type (G : GLang) (t : QTask) (f : QFlags) (g : List Triple) (wf : Node) (k : Nat)
+    (hk : StepReach t k) (hne : (t.step k).types ≠ [])
+    (habs : (f.byTypes = true ∧ ∀ T ∈ (t.step k).types, ¬ HasType G g wf T) ∨
+            (f.byChronology = true ∧ ∀ n, ∀ T ∈ unionOf (leTyB G.types) false (t.step k).types, ∀ u,
+              typeUri G T.toTerm = .ok u → (n, Node.tf "subtypeOf", u) ∉ g)) :
+    ¬ Matches G t f g wf :=
+  not_matches_absent_type hk hne habs
+
+/-- A task read off a workflow's own graph matches it, under every choice of flags: the steps are nodes of the
+graph (through `h`), their operators, types and links are triples of the graph, and the workflow has the
+membership triples the graph generator emits. -/
+theorem C11_self (G : GLang) (t : QTask) (f : QFlags) (g : List Triple) (wf : Node) (h : Nat → Node)
+    (hr : ReadOff G t g wf h) : Matches G t f g wf :=
+  ⟨h, hr.matchesBy f⟩
+
+/-! ## non-vacuity: a three-step task, the graph `exGraph`, and every theorem above instantiated -/
+
+def exL : Lang := builtinDecls ++ [⟨"A", [], none⟩, ⟨"B", [], some 5⟩]
+def exG : GLang := { types := exL }
+def tA : Ty := .app 5 []
+def tB : Ty := .app 6 []
+/-- output step 0 (an `A` via `f`) from step 1 (a `B` or an `A`, via `g`) from the input step 2 (an `A`) -/
+def exTask : QTask :=
+  { steps := [{ types := [tA], ops := ["f"], from_ := [1] }, { types := [tB, tA], ops := ["g"], from_ := [2] },
+              { types := [tA], ops := [], from_ := [] }],
+    outputs := [0], inputs := [2] }
+def exD (T : Ty) : Prop := wfTy exL T = true ∧ (T = tA ∨ T = tB)
+def exQuery : Query := match genQuery exG exTask {} with
+  | .ok q => q
+  | .error _ => {}
+
+theorem exQuery_ok : genQuery exG exTask {} = .ok exQuery := by
+  unfold exQuery
+  cases h : genQuery exG exTask {} with
+  | ok q => rfl
+  | error e =>
+    have : (match genQuery exG exTask {} with | .ok _ => true | .error _ => false) = true := by decide +kernel
+    rw [h] at this
+    cases this
+
+theorem exTask_types : ∀ k, ∀ T ∈ (exTask.step k).types, exD T := by
+  intro k T hT
+  have hA : exD tA := ⟨by decide, Or.inl rfl⟩
+  have hB : exD tB := ⟨by decide, Or.inr rfl⟩
+  rcases k with _ | _ | _ | k <;> simp [exTask, QTask.step] at hT
+  · subst hT; exact hA
+  · rcases hT with rfl | rfl
+    · exact hB
+    · exact hA
+  · subst hT; exact hA
+
+theorem hasA : HasType exG exGraph w tA := ⟨.ns "A", rfl, by decide⟩
+theorem hasB : HasType exG exGraph w tB := ⟨.ns "B", rfl, by decide⟩
+
+theorem exUp : C20.UpClosed (leTyB exG.types) exD (HasType exG exGraph w) := by
+  intro x y _ hy _ _
+  rcases hy.2 with rfl | rfl
+  · exact hasA
+  · exact hasB
+
+theorem exMatches : Matches exG exTask {} exGraph w :=
+  (C11_query exG exTask {} exQuery rfl exQuery_ok exGraph w exD
+    (C11_porder exL (C01.C01_wfLang exL (by decide)) _) (fun k _ => exTask_types k) exUp).1 (by decide +kernel)
+
+
+/-- the query accepts: C11 is not vacuous on the accepting side … -/
+example : evalQuery exQuery exGraph w = true := by decide +kernel
+
+theorem exReach : ∀ k, StepReach exTask k → k = 0 ∨ k = 1 ∨ k = 2 := by
+  intro k hk
+  induction hk with
+  | out ho => simp [exTask] at ho; exact Or.inl ho
+  | step _ hb ih =>
+    rcases ih with rfl | rfl | rfl <;> simp [exTask, QTask.step] at hb
+    · exact Or.inr (Or.inl hb)
+    · exact Or.inr (Or.inr hb)
+
+/-- … the same task is read off the graph (`C11_self` applies with `h = b`) -/
+theorem exReadOff : ReadOff exG exTask exGraph w b := by
+  refine ⟨?_, ?_, ?_, ?_, ?_, ?_, ?_⟩
+  · intro o ho
+    simp [exTask] at ho
+    subst ho
+    decide
+  · intro i hi _
+    simp [exTask] at hi
+    subst hi
+    decide
+  · intro k hk o ho
+    rcases exReach k hk with rfl | rfl | rfl <;> simp [exTask, QTask.step] at ho <;> subst ho <;> decide
+  · intro k hk T hT
+    rcases exReach k hk with rfl | rfl | rfl <;> simp [exTask, QTask.step] at hT
+    · subst hT; exact ⟨.ns "A", rfl, by decide⟩
+    · rcases hT with rfl | rfl
+      · exact ⟨.ns "B", rfl, by decide⟩
+      · exact ⟨.ns "A", rfl, by decide⟩
+    · subst hT; exact ⟨.ns "A", rfl, by decide⟩
+  · intro c b' hc hb
+    rcases exReach c hc with rfl | rfl | rfl <;> simp [exTask, QTask.step] at hb <;> subst hb <;> decide
+  · intro n o h
+    simp [exGraph, b, w] at h
+    rcases h with ⟨_, rfl⟩ | ⟨_, rfl⟩ <;> decide
+  · intro n u h
+    simp [exGraph, b, w] at h
+    rcases h with ⟨_, rfl⟩ | ⟨_, rfl⟩ | ⟨_, rfl⟩ | ⟨_, rfl⟩ <;> decide
+
+example : Matches exG exTask {} exGraph w := C11_self exG exTask {} exGraph w b exReadOff
+
+/-- dropping the input step keeps the match, and the new query still accepts -/
+example : Matches exG (exTask.dropLink 1 2) {} exGraph w := C11_drop_step exG exTask {} exGraph w 1 2 exMatches
+example : (match genQuery exG (exTask.dropLink 1 2) {} with
+    | .ok q => evalQuery q exGraph w
+    | .error _ => false) = true := by decide +kernel
+
+/-- a task that requires the absent operator `h` at its output does not match, and its query rejects -/
+def exTaskH : QTask := { exTask with steps := [{ types := [tA], ops := ["h"], from_ := [1] }] ++ exTask.steps.drop 1 }
+
+example : ¬ Matches exG exTaskH {} exGraph w :=
+  C11_absent_operator exG exTaskH {} exGraph w 0 "h" (.out (by simp [exTaskH, exTask])) rfl
+    (Or.inl ⟨rfl, by decide⟩)
+example : (match genQuery exG exTaskH {} with
+    | .ok q => evalQuery q exGraph w
+    | .error _ => true) = false := by decide +kernel
+
+/-- generalising step 1 from "`B` or `A`" to "`A`": the hypotheses of `C11_generalise` hold of the example graph -/
+def exTaskGen : QTask :=
+  { exTask with steps := [{ types := [tA], ops := ["f"], from_ := [1] }, { types := [tA], ops := ["g"], from_ := [2] },
+                          { types := [tA], ops := [], from_ := [] }] }
+
+theorem leAA : leTyB exL tA tA = true := by decide
+theorem leBA : leTyB exL tB tA = true := by decide
+theorem leAB : leTyB exL tA tB = false := by decide
+
+theorem exGeneralised : GeneralisedTask (leTyB exG.types) exTask exTaskGen := by
+  refine ⟨rfl, rfl, ?_, ?_, ?_⟩
+  · intro k
+    rcases k with _ | _ | _ | k <;> rfl
+  · intro k
+    rcases k with _ | _ | _ | k <;> rfl
+  · intro k
+    rcases k with _ | _ | _ | k <;> simp [GeneralisesTypes, exTask, exTaskGen, QTask.step]
+    · exact leAA
+    · exact ⟨leBA, leAA⟩
+    · exact leAA
+
+theorem exUpSub : UpClosedSubtypeOf exG exD exGraph := by
+  intro n T T' u hT hT' hu hg hle
+  rcases hT.2 with rfl | rfl <;> rcases hT'.2 with rfl | rfl
+  · exact ⟨u, hu, hg⟩
+  · rw [show exG.types = exL from rfl, leAB] at hle
+    cases hle
+  · have : u = .ns "B" := by
+      have h2 : typeUri exG tB.toTerm = .ok (.ns "B") := rfl
+      rw [h2] at hu
+      simp only [Except.ok.injEq] at hu
+      exact hu.symm
+    subst this
+    simp [exGraph, b, w] at hg
+    subst hg
+    exact ⟨.ns "A", rfl, by decide⟩
+  · exact ⟨u, hu, hg⟩
+
+theorem exTaskGen_types : ∀ k, ∀ T ∈ (exTaskGen.step k).types, exD T := by
+  intro k T hT
+  have hA : exD tA := ⟨by decide, Or.inl rfl⟩
+  rcases k with _ | _ | _ | k <;> simp [exTaskGen, QTask.step] at hT <;> subst hT <;> exact hA
+
+example : Matches exG exTaskGen {} exGraph w :=
+  C11_generalise exG exTask exTaskGen {} exGraph w exD (C11_porder exL (C01.C01_wfLang exL (by decide)) _)
+    exGeneralised exTask_types exTaskGen_types exUpSub exUp exMatches
+
+/-- the example task has no cycle (its query was generated), a task whose output feeds itself has one and is refused -/
+example : NoCycle exTask := C11_generates_only exG exTask {} exQuery rfl exQuery_ok
+
+example : (match genQuery exG { exTask with steps := [{ from_ := [0] }] } {} with
+    | .error .cyclic => true
+    | _ => false) = true := by decide +kernel
+
+/-- the predicates of the example query -/
+example : exQuery.preds.eraseDups = ["containsOperation", "containsType", "output", "from", "subtypeOf", "input", "via", "depends"] := by
+  decide +kernel
+
+/-- what `assignAll` computes for the example -/
+example : assignAll exTask {} = .ok ⟨[([0], 0), ([1], 1), ([2], 2)], [([1], [2]), ([0], [1])], [[0]], [[2]]⟩ := by rfl
+
 end Tfv.C11
